@@ -3,7 +3,7 @@
 /verif/evidence_thorough/*.json (thorough, if present)."""
 import json, os, re
 WHAT = {
- "C01": "base pairs (4 prepared states) / trios / quad + role matrix (all pairs and triples of 20 roles) + C10/C11/C12 structural scenarios; both flavours",
+ "C01": "base pairs (4 prepared states) / trios / quad + role matrix (all pairs and triples of 22 roles) + C10/C11/C12 structural scenarios; both flavours",
  "C02": "same executions as C01, order-graph oracle",
  "C03": "the above + non-power-of-two capacities + capacity pump 0..9 (E2)",
  "C04": "payload with scheduling points inside clone/view/drop; slot accesses are points",
